@@ -8,7 +8,7 @@
   OverflowError of an out-of-range int escape (lead L4), or when `pid`/`ppid` stop being valid
   `as_dict` names of the kinds the model assumes.
 -/
-import PsutilModel.Proofs.C04Sim
+import PsutilModel.Proofs.C04Aux
 import PsutilModel.Model.C04Gen
 namespace Psutil.C04
 open Spec
@@ -199,23 +199,6 @@ theorem C04_pidExists_overflow_counterexample :
 
 /-! ## `process_iter()` — safety, for EVERY history (overlapping generators included) -/
 
-/-- the PID yielded by generator `g` at one step of a run, if any -/
-def yieldOf (g : Nat) : Op × Out → Option Nat
-  | (.next g' _, .yield _ p _) => if g' = g then some p else none
-  | _ => none
-
-/-- the PIDs generator `g` yields along history `h` from state `s`, in order -/
-def yieldsOf (c : Cfg) (s : St) (g : Nat) (h : List Op) : List Nat :=
-  (h.zip (trace c s h)).filterMap (yieldOf g)
-
-theorem yieldsOf_cons (c : Cfg) (s : St) (g : Nat) (op : Op) (ops : List Op) :
-    yieldsOf c s g (op :: ops)
-      = match yieldOf g (op, (step c s op).2) with
-        | some p => p :: yieldsOf c (step c s op).1 g ops
-        | none => yieldsOf c (step c s op).1 g ops := by
-  simp only [yieldsOf, trace, List.zip_cons_cons, List.filterMap_cons]
-  cases yieldOf g (op, (step c s op).2) <;> rfl
-
 /-- **C04_iter_ascending.** Along ANY history — other generators interleaved, the table changing
     at any point, `cache_clear()`, `is_running()`, partially consumed and closed generators,
     either order of draining `_pids_reused` — the PIDs one generator yields are strictly
@@ -363,84 +346,6 @@ example : trace cfg (St.init ⟨[⟨9, 109, false, false, .ok⟩, ⟨1, 101, fal
 
 /-! ## `process_iter()` — the cache, for every SEQUENTIAL history -/
 
-/-- executable check of `OpOK` (for the non-vacuity examples) -/
-def idleExcept (gens : List Gen) (g : Option Nat) : Bool :=
-  (List.range gens.length).all fun j =>
-    (g == some j) || match gens[j]? with
-      | some gen => !isRun gen
-      | none => true
-
-def noReuseB (c : Cfg) : Attrs → Bool
-  | .none => true
-  | .names l => (namesOf c l).all fun n => !(kindOf c n == AttrKind.reuse)
-
-def opOKb (c : Cfg) (s : St) : Op → Bool
-  | .next g _ =>
-    idleExcept s.gens (some g) &&
-      match s.gens[g]? with
-      | some gen => noReuseB c gen.attrs && (!(gen.st == GSt.fresh) || !s.k.procs.isEmpty)
-      | none => true
-  | .cacheClear => idleExcept s.gens none
-  | .pids => !s.k.procs.isEmpty
-  | .pidExists _ => !s.k.procs.isEmpty
-  | _ => true
-
-def seqHistB (c : Cfg) : St → List Op → Bool
-  | _, [] => true
-  | s, op :: ops => opOKb c s op && seqHistB c (step c s op).1 ops
-
-theorem idleExcept_sound {gens : List Gen} {g : Option Nat} (h : idleExcept gens g = true) :
-    ∀ (j : Nat) (gen : Gen), g ≠ some j → gens[j]? = some gen → isRun gen = false := by
-  intro j gen hj hg
-  have hlt : j < gens.length := (List.getElem?_eq_some_iff.mp hg).1
-  have := (List.all_eq_true.mp h) j (List.mem_range.mpr hlt)
-  simp only [hg, Bool.or_eq_true, beq_iff_eq, Bool.not_eq_true'] at this
-  rcases this with h1 | h1
-  · exact absurd h1 hj
-  · exact h1
-
-theorem noReuseB_sound {c : Cfg} {a : Attrs} (h : noReuseB c a = true) : NoReuse c a := by
-  cases a with
-  | none => trivial
-  | names l =>
-    intro n hn
-    have := (List.all_eq_true.mp h) n hn
-    intro e
-    simp [e] at this
-
-theorem opOKb_sound {c : Cfg} {s : St} {op : Op} (h : opOKb c s op = true) : OpOK c s op := by
-  cases op with
-  | next g mid =>
-    simp only [opOKb, Bool.and_eq_true] at h
-    refine ⟨fun j gen hj hg => idleExcept_sound h.1 j gen (by simpa using fun e => hj e.symm) hg, ?_⟩
-    intro gen hg
-    have h2 := h.2
-    rw [hg] at h2
-    simp only [Bool.and_eq_true, Bool.or_eq_true, Bool.not_eq_true', beq_eq_false_iff_ne, ne_eq,
-      List.isEmpty_eq_false_iff] at h2
-    refine ⟨noReuseB_sound h2.1, fun hf => ?_⟩
-    rcases h2.2 with h3 | h3
-    · exact absurd hf h3
-    · exact h3
-  | cacheClear =>
-    exact fun j gen hg => idleExcept_sound (g := none) h j gen (by simp) hg
-  | pids =>
-    have h' : s.k.procs ≠ [] := by simpa [opOKb] using h
-    exact h'
-  | pidExists n =>
-    have h' : s.k.procs ≠ [] := by simpa [opOKb] using h
-    exact h'
-  | kev e => trivial
-  | iter a => trivial
-  | close g => trivial
-  | isRunning r => trivial
-
-theorem seqHistB_sound (c : Cfg) : ∀ (h : List Op) (s : St), seqHistB c s h = true → SeqHist c s h
-  | [], _, _ => trivial
-  | op :: ops, s, h => by
-    simp only [seqHistB, Bool.and_eq_true] at h
-    exact ⟨opOKb_sound h.1, seqHistB_sound c ops _ h.2⟩
-
 /-- **C04_refines_sequential.** For EVERY sequential history over a well-formed table — any
     kernel events (spawn, exit, PID reuse, zombies, threads) between and during iterations,
     partially consumed and closed generators, `cache_clear()`, `is_running()` on any object,
@@ -511,70 +416,6 @@ theorem C04_cache_clear (valid noAccess : List String) (ss : SSt) :
   intro flagged listed p
   rw [C04_start_cache]
   simp [sstep, PMap.get]
-
-theorem mem_dedup (x : String) (l : List String) : x ∈ dedup l ↔ x ∈ l := by
-  induction l with
-  | nil => simp [dedup]
-  | cons y ys ih =>
-    simp only [dedup]
-    split
-    · rename_i hc
-      simp only [List.contains_eq_mem, decide_eq_true_eq] at hc
-      rw [ih]
-      constructor
-      · intro h; exact List.mem_cons_of_mem _ h
-      · intro h
-        rcases List.mem_cons.mp h with e | h'
-        · rw [e]; exact hc
-        · exact h'
-    · simp [ih]
-
-theorem nodup_dedup (l : List String) : (dedup l).Nodup := by
-  induction l with
-  | nil => simp [dedup]
-  | cons y ys ih =>
-    simp only [dedup]
-    split
-    · exact ih
-    · rename_i hc
-      simp only [List.contains_eq_mem, decide_eq_true_eq] at hc
-      exact List.nodup_cons.mpr ⟨fun h => hc ((mem_dedup y ys).mp h), ih⟩
-
-theorem visit_info (c : Cfg) (attrs : Attrs) (g : Nat) (listed : List Nat) :
-    ∀ (todo : List (Nat × Option Ref)) (s : St) (pmap : PMap) (r : Ref) (p : Nat) (info : Option (List String)),
-      (visit c attrs g listed s pmap todo).2 = .yield r p info →
-      info = match attrs with
-        | .none => none
-        | .names l => some (namesOf c l) := by
-  intro todo
-  induction todo with
-  | nil => intro s pmap r p info h; simp [visit] at h
-  | cons e rest ih =>
-    intro s pmap r p info h
-    obtain ⟨pid, oref⟩ := e
-    simp only [visit] at h
-    cases ha : addProc s pmap pid oref with
-    | none => rw [ha] at h; exact ih _ _ r p info h
-    | some x =>
-      obtain ⟨s1, pm1, r1⟩ := x
-      rw [ha] at h
-      simp only at h
-      cases hf : fillInfo c attrs r1 pid s1 with
-      | ok s2 info' =>
-        rw [hf] at h
-        simp only [Out.yield.injEq] at h
-        obtain ⟨_, _, rfl⟩ := h
-        cases attrs with
-        | none => simp only [fillInfo, Fill.ok.injEq] at hf; exact hf.2.symm
-        | names l =>
-          simp only [fillInfo] at hf
-          split at hf
-          · cases hf
-          · split at hf
-            · simp only [Fill.ok.injEq] at hf; exact hf.2.symm
-            · cases hf
-      | bad => rw [hf] at h; cases h
-      | nsp s2 => rw [hf] at h; exact ih _ _ r p info h
 
 /-- **C04_info_keys.** In every history, an object yielded by a generator created with
     `attrs=None` carries no new `info`; one created with `attrs=[names…]` carries an `info` dict
